@@ -232,6 +232,18 @@ FLAGS = {'nsw', 'nuw', 'exact', 'inbounds', 'fast', 'nnan', 'ninf', 'nsz', 'arcp
 def parse_value(c, ty):
     """parse a value of (already parsed) type ty"""
     t = c.next()
+    if t[0] == '!':
+        if c.peek() == '(':  # !DIExpression(...)
+            d = 0
+            while True:
+                x = c.next()
+                if x == '(':
+                    d += 1
+                elif x == ')':
+                    d -= 1
+                    if d == 0:
+                        break
+        return ('meta', t)
     if t[0] == '%':
         return ('local', unq(t))
     if t[0] == '@':
@@ -1447,10 +1459,35 @@ class Emitter:
             phis[lab] = [x for x in ins_list if x['op'] == 'phi']
         self.tmpn = 0
 
+        order = self.rpo(f)
+        idx = {lab: i for i, (lab, _) in enumerate(order)}
+        heads = set()
+        for lab, ins_list in order:
+            t = ins_list[-1] if ins_list else None
+            if t is None:
+                continue
+            tg = []
+            if t['op'] == 'br':
+                tg = t['targets']
+            elif t['op'] == 'switch':
+                tg = [t['default']] + [c[1] for c in t['cases']]
+            elif t['op'] == 'invoke':
+                tg = [t['targets'][0]]
+            for x in tg:
+                if x in idx and idx[x] <= idx[lab]:
+                    heads.add(x)
+
+        def target(frm, to):
+            # forward entries into a loop head go through its pre-header label: CBMC resets a loop's unwind counter
+            # only when the head is reached by a non-backward *fall-through* transition
+            if to in heads and idx[frm] < idx[to]:
+                return 'P' + labels[to]
+            return labels[to]
+
         def edge(frm, to):
             ph = phis.get(to, [])
             if not ph:
-                return 'goto %s;' % labels[to]
+                return 'goto %s;' % target(frm, to)
             vals = []
             for x in ph:
                 v = None
@@ -1477,10 +1514,13 @@ class Emitter:
                 for x, v in vals:
                     if v[0] != 'undef':
                         s.append('%s = %s;' % (self.lname(x['dst']), self.val(x['ty'], v)))
-            s.append('goto %s;' % labels[to])
+            s.append('goto %s;' % target(frm, to))
             return ' '.join(s)
 
-        for lab, ins_list in f.blocks:
+        for lab, ins_list in order:
+            if lab in heads:
+                decl['symx_ph'] = 'int'
+                lines.append('P%s: symx_ph = 0;' % labels[lab])
             lines.append('%s: ;' % labels[lab])
             for x in ins_list:
                 op = x['op']
@@ -1494,6 +1534,41 @@ class Emitter:
         hdr = self.fsig(f) + ' {'
         ds = ['  %s %s;' % (t, n) for n, t in decl.items()]
         return '\n'.join([hdr] + ds + lines + ['}'])
+
+    def rpo(self, f):
+        """blocks in reverse post-order (every backward goto is then a loop back-edge, which is what CBMC's
+        per-loop unwind counters assume); blocks unreachable from the entry (landing pads) are dropped"""
+        bmap = dict(f.blocks)
+        succ = {}
+        for lab, ins_list in f.blocks:
+            t = ins_list[-1] if ins_list else None
+            ss = []
+            if t is not None:
+                if t['op'] == 'br':
+                    ss = list(t['targets'])
+                elif t['op'] == 'switch':
+                    ss = [t['default']] + [c[1] for c in t['cases']]
+                elif t['op'] == 'invoke':
+                    ss = [t['targets'][0]]
+            succ[lab] = ss
+        entry = f.blocks[0][0]
+        seen = set([entry])
+        post = []
+        stack = [(entry, iter(succ[entry]))]
+        while stack:
+            lab, it = stack[-1]
+            adv = False
+            for s2 in it:
+                if s2 not in seen:
+                    seen.add(s2)
+                    stack.append((s2, iter(succ[s2])))
+                    adv = True
+                    break
+            if not adv:
+                post.append(lab)
+                stack.pop()
+        order = list(reversed(post))
+        return [(lab, bmap[lab]) for lab in order]
 
     def setv(self, x, decl, expr, ty=None):
         ty = ty or x['ty']
@@ -1554,6 +1629,8 @@ class Emitter:
         if op == 'unreachable':
             return '__CPROVER_assume(0);'
         if op == 'landingpad':
+            if x['dst'] is not None:
+                decl[self.lname(x['dst'])] = self.cty(x['ty'])
             return '__CPROVER_assume(0); /* landingpad: exceptions are not modelled */'
         if op == 'resume':
             return '__CPROVER_assume(0);'
@@ -1678,6 +1755,8 @@ class Emitter:
                 return '%s = %s(); %s' % (n, self.gname(name), ret(n))
             fdef = self.m.funcs.get(name)
             isdef = fdef is not None and fdef.defined and name not in self.externs
+            if name in ENV_ABORT:
+                return 'SYMX_ON_ABORT;'
             if not isdef:
                 if name in ENV_NEW:
                     self.use_func(name)
